@@ -35,8 +35,9 @@ def parse(trace):
     return [parse_line(r) for r in trace.splitlines() if r]
 
 def strip_payload(t):
-    """o>d:p -> o>d ; '-' stays"""
-    return t.split(":")[0] if t != "-" else t
+    """o>d:p -> o>d ; '-' stays ; '-[o:p]' (an invalid transition with a left-over origin/payload) -> '-'"""
+    if t.startswith("-"): return "-"
+    return t.split(":")[0]
 
 LIFE = ("enter", "exit", "reenter")
 GUARD = ("entryGuard", "exitGuard")
@@ -160,7 +161,7 @@ def p_C16(l):
     return None
 
 def p_C17(l):
-    return l.raw
+    return re.sub(r" cnts=\S*", "", l.raw)        # the state objects' own counters are checked by the C17 monitor, the model does not have them
 
 def p_all(l):
     return l.raw
